@@ -165,8 +165,26 @@ def mutants(marked, rnd):
 def near_cases(rnd, recs, n_orig, max_len):
     pool = [r for r in recs if len(canonical(r["toks"])) <= max_len]
     rnd.shuffle(pool)
+    # originals are drawn round-robin from the classes of structural shape (which keywords and brackets occur, whether a
+    # comma-separated list has two or more items): a uniform draw leaves rare shapes (a lambda with two parameters, ...) to chance
+    STRUCT = {"lambda", "def", "for", "in", "if", "else", "elif", "while", "load", "return", "not", "and", "or", "*", "**", "=", ":", "[", "{", "(", ".", ";"}
+    groups = {}
+    for r in pool:
+        c = canonical(r["toks"])
+        key = (tuple(sorted({t for t in c if t in STRUCT})), min(2, sum(1 for t in c if t == ",")))
+        groups.setdefault(key, []).append(r)
+    order = sorted(groups)
+    rnd.shuffle(order)
+    chosen, k = [], 0
+    while len(chosen) < min(n_orig, len(pool)):
+        g = groups[order[k % len(order)]]
+        if g:
+            chosen.append(g.pop())
+        k += 1
+        if k > 100 * len(order) + n_orig:
+            break
     out, seen = [], set()
-    for r in pool[:n_orig]:
+    for r in chosen:
         c = canonical(r["toks"])
         for kind, t in [("orig", plain(c))] + list(mutants(c, rnd)):
             key = tuple(t)
@@ -479,7 +497,7 @@ def plan(ctx):
             "expr": [("e2full", 2, "full", "id", 0, 4), ("e3small", 3, "small", "id", 0, 3), ("e1lits", 1, "mid", "all", 0, 4),
                      ("ernd", 10, "full", "all", 100, 4)],
             "file": [("f2full", 2, "full", "id", 0, 4), ("f3mid", 3, "mid", "id", 0, 4), ("frnd", 7, "full", "id", 50, 4)],
-            "near": {"expr": (50, 22), "file": (28, 30)},
+            "near": {"expr": (110, 22), "file": (40, 30)},
         }
     return {
         "expr": [("e2full", 2, "full", "id", 0, 6), ("e3mid", 3, "mid", "id", 0, 3), ("e1lits", 1, "full", "all", 0, 4),
